@@ -351,10 +351,18 @@ Record ureq := { q_method : str; q_target : str; q_hdrs : hdrs; q_body : str }.
 
 Definition strip_conditionals (h : hdrs) : hdrs := fold_left (fun h n => hdel n h) conditional_names h.
 
+(* handleHTTP consumes the client's conditionals only for the methods the cache may answer (fix bd24877: they used
+   to be removed from every request, also from writes, whose If-Match is the client's lost-update protection). *)
+Definition s_GET : str := [71;69;84].
+Definition s_HEAD : str := [72;69;65;68].
+Definition cache_answers (m : str) : bool := str_eqb m s_GET || str_eqb m s_HEAD.
+Definition after_cache_layer (r : creq) : hdrs :=
+  if cache_answers (c_method r) then strip_conditionals (c_hdrs r) else c_hdrs r.
+
 Definition relay_request (r : creq) : option ureq :=
   match forwarded_target (c_rawpath r) (c_query r) with
   | None => None
   | Some t => Some {| q_method := c_method r; q_target := t;
-                      q_hdrs := remove_hop_by_hop (strip_conditionals (c_hdrs r));
+                      q_hdrs := remove_hop_by_hop (after_cache_layer r);
                       q_body := c_body r |}
   end.
